@@ -4,6 +4,7 @@ import (
 	"bytes"
 	"context"
 	"fmt"
+	"hash/fnv"
 	"os"
 	"os/exec"
 	"path/filepath"
@@ -147,7 +148,9 @@ func Discharge(units []*Unit, cfg SolverCfg) {
 			defer func() { <-cpuSem }()
 			o := &Obligation{Name: u.VC.name + "/reach", Goal: "(not " + u.ReachCond + ")", NFacts: len(u.VC.facts)}
 			file := oblFile(cfg.WorkDir, o)
+			u.VC.skipUndischarged = true
 			os.WriteFile(file, []byte(u.VC.script(o, false)), 0o644)
+			u.VC.skipUndischarged = false
 			st, _, _ := runSolver(solvers[0], file, 2*time.Second)
 			switch st {
 			case "unsat":
@@ -166,7 +169,9 @@ func Discharge(units []*Unit, cfg SolverCfg) {
 func oblFile(workdir string, o *Obligation) string {
 	n := sanitize(o.Name)
 	if len(n) > 150 {
-		n = n[:150]
+		h := fnv.New64a()
+		h.Write([]byte(o.Name))
+		n = fmt.Sprintf("%s_%x", n[:120], h.Sum64())
 	}
 	return filepath.Join(workdir, n+".smt2")
 }
